@@ -69,6 +69,11 @@
  *   pendingwritecb=1    ares_set_pending_write_cb, log PENDINGWRITE (see op flushwrites)
  *   serverstatecb=1     ares_set_server_state_callback, log SERVERSTATE
  *   tfo=1               asetsockopt(TCP_FASTOPEN) succeeds (default: -1/ENOSYS)
+ *   sockfuncs=ex|nogsn|legacy   socket function table: ex (default) = ares_set_socket_functions_ex with all
+ *                       functions; nogsn = the same without agetsockname; legacy = the deprecated
+ *                       ares_set_socket_functions() (asocket/aclose/aconnect/arecvfrom/asendv only:
+ *                       no SETSOCKOPT/BIND/GETSOCKNAME lines, sockets treated as possibly blocking,
+ *                       i.e. one read per read event also on UDP)
  *   connectlater=1      TCP aconnect returns EINPROGRESS (see ops connectlater/connected)
  *   chunk=<n1,n2,..>    default TCP read chunking for every TCP socket (see op chunk)
  *   wpat=<n1,n2,..>     default TCP write acceptance pattern (see op wpat)
